@@ -315,3 +315,7 @@ mod tests {
         }
     }
 }
+
+#[cfg(kani)]
+#[path = "/verif/kani/std_del.rs"]
+mod kani_verif;
